@@ -1,12 +1,12 @@
 SPECIFICATION Spec
 CONSTANTS
-  Families = {"ne"}
+  Families = {"fo", "st", "va", "ch", "ne", "dy", "cd"}
   DynLen = 5
   CdLen = 3
   SizeFo = 3
   SizeVa = 3
   SizeCh = 2
-  SizeNe = 3
+  SizeNe = 2
   ExtClass <- NoExt
   ExtEsc <- NoExt
   ExtSep <- OneSpace
